@@ -129,7 +129,7 @@ func (p c19) scenario(r *core.Result, s c19scn, seed uint64) {
 	tag := fmt.Sprintf("fault=%s moment=%s transport=%s reps=%d", s.Fault, s.Moment, s.Transport, s.Reps)
 	core.CanaryReset()
 	fail := func(k, format string, a ...interface{}) {
-		if core.CanaryWorstMS() > 1500 {
+		if core.CanaryWorstMS() > 600 {
 			r.Verdict = core.Inconclusive
 			r.Note = "timing clause under starvation: " + k
 			return
